@@ -135,7 +135,7 @@ void verif_case(Ctx &c) {
 				}
 			}
 		});
-		unsigned smode = t.pick(5); c.tagf("sched-mode-%u", smode);
+		unsigned smode = dsched::pick_mode(t); c.tagf("sched-mode-%u", smode & 0xff); if(smode & 0x100) c.tag("sched-mode-window-hunting");
 		auto choose = dsched::make_chooser(t, smode);
 		auto r = dsched::run(bodies, choose, 100000);
 		total_switches += r.switches;
